@@ -80,11 +80,11 @@ PROPS['C10'] = dict(level='other', steps=[E3('c10-renumber')],
                 text='bounded stand-in: renumber_objects_with is BTreeMap/closure code over the whole Document and outside the verifiers\' subset; the postcondition of the property (consecutive numbers, max_id, a one-to-one renaming under which trailer, objects and bookmark targets are equal, dangling stays dangling, page order) is evaluated on every enumerated document.',
                 note='bounded; start = 0 and start + n > u32::MAX are recorded as known findings (outside the domain of the function)')
 
-PROPS['C11'] = dict(level='other', steps=[E3('c11-edits')],
+PROPS['C11'] = dict(level='other', steps=[V('ids'), E3('c11-edits')],
                 title='Editing operations keep the document sound',
                 technique='bounded-exhaustive executable contracts: every call sequence of length <= 2 (thorough <= 3/4) over 38-54 editing calls on 14 start states, checked against an independent abstract model after every step',
-                text='bounded stand-in only: the editing functions are iterator/closure graph code outside the verifiers\' subset (DESIGN 5, C11); every step of every enumerated sequence is checked against observers written from the property statement.',
-                note='bounded; three known findings recorded in known_findings.json')
+                text='bounded stand-in only: the editing functions are iterator/closure graph code outside the verifiers\' subset (DESIGN 5, C11); every step of every enumerated sequence is checked against observers written from the property statement. Only the id-allocation kernel is under contract (Verus unit ids: new_object_id / add_object / set_object keep `no object number above max_id` and hand out numbers no object carries).',
+                note='bounded; three known findings recorded in known_findings.json; precondition max_id < u32::MAX on id allocation')
 
 PROPS['C12'] = dict(level='proof', steps=[V('pages'), E3('c12-pages')],
                 title='Page enumeration is the depth-first order of the page tree',
